@@ -49,7 +49,8 @@ InputInit(MaxItems, ItemKinds, TextOpts, TailOpts, AttrCounts, DeclOpts,
   /\ variant \in Variants
   /\ rootarg \in RootArgs
   /\ fragment \in Fragments
-  /\ nsarg \in NsArgs
+  /\ nsarg \in (IF variant = "lxml" THEN {x \in NsArgs : x \subseteq {"p"}} ELSE NsArgs)
+                                   \* lxml ignores namespaces=: only {} and {"p"} are enumerated there
   /\ n \in 1..MaxItems
   /\ par \in ValidParents(n)
   /\ knd \in {k \in [1..n -> ItemKinds \cup {"e"}] :
@@ -169,7 +170,8 @@ DefStringValue(x) ==
     [] OTHER     -> <<x>>
 
 (* rank = index in DefSeq *)
-RankOf(x) == CHOOSE j \in 1..Len(DefSeq) : DefSeq[j] = x
+RankIn(S, x) == CHOOSE j \in 1..Len(S) : S[j] = x
+RankOf(x) == RankIn(DefSeq, x)
 SeqToSet(s) == {s[j] : j \in 1..Len(s)}
 
 (* expected number of XDM nodes, counted independently of DefSeq *)
@@ -188,23 +190,26 @@ RECURSIVE DAnc(_)     \* proper ancestors of a descriptor
 DAnc(x) == LET p == DefParent(x) IN IF p = NoneD THEN {} ELSE {p} \cup DAnc(p)
 
 DefLaws ==
-  LET S == DefSeq  M == Len(S) IN
+  LET S == DefSeq
+      M == Len(S)
+      Rk(x) == RankIn(S, x)
+      Par(a) == DefParent(S[a])
+      Ch(a) == DefChildren(S[a])
+      Below(a) == {c \in 1..M : S[a] \in DAnc(S[c])}      \* descendants (incl. ns / attribute nodes)
+  IN
   /\ M = ExpectedCount                                         \* one node per input constituent
   /\ \A a, b \in 1..M : a # b => S[a] # S[b]                   \* no node twice
-  /\ \A a \in 1..M : DefParent(S[a]) = NoneD \/ DefParent(S[a]) \in SeqToSet(S)
-  /\ \A a \in 1..M : DefParent(S[a]) # NoneD => RankOf(DefParent(S[a])) < a     \* parent first
-  /\ \A a \in 1..M : \A c \in SeqToSet(DefChildren(S[a])) : DefParent(c) = S[a] \* children <-> parent
-  /\ \A a \in 1..M : S[a].k \notin {"ns", "a"} /\ DefParent(S[a]) # NoneD
-                       => S[a] \in SeqToSet(DefChildren(DefParent(S[a])))
-  /\ \A a \in 1..M : LET ch == DefChildren(S[a]) IN                             \* children in order
-                       \A u, v \in 1..Len(ch) : u < v => RankOf(ch[u]) < RankOf(ch[v])
+  /\ \A a \in 1..M : Par(a) = NoneD \/ (Par(a) \in SeqToSet(S) /\ Rk(Par(a)) < a)   \* parent first
+  /\ \A a \in 1..M : \A u \in 1..Len(Ch(a)) : DefParent(Ch(a)[u]) = S[a]           \* children <-> parent
+  /\ \A a \in 1..M : S[a].k \notin {"ns", "a"} /\ Par(a) # NoneD
+                       => S[a] \in SeqToSet(DefChildren(Par(a)))
+  /\ \A a \in 1..M : \A u, v \in 1..Len(Ch(a)) : u < v => Rk(Ch(a)[u]) < Rk(Ch(a)[v])   \* children in order
   /\ \A a \in 1..M : S[a].k = "e" =>                                            \* ns, then attrs, then children
         LET i == S[a].src IN
         /\ \A j \in 1..NsCount(i) : S[a + j] = D("ns", i, j)
         /\ \A j \in 1..nat[i] : S[a + NsCount(i) + j] = D("a", i, j)
-        /\ \A c \in SeqToSet(DefChildren(S[a])) : RankOf(c) > a + NsCount(i) + nat[i]
-  /\ \A a, b \in 1..M :                                                         \* descendants before following
-        (a < b /\ S[a] \notin DAnc(S[b]))
-           => \A c \in 1..M : S[a] \in DAnc(S[c]) => c < b
-  /\ Cardinality({a \in 1..M : DefParent(S[a]) = NoneD}) = 1                    \* one root
+        /\ \A u \in 1..Len(Ch(a)) : Rk(Ch(a)[u]) > a + NsCount(i) + nat[i]
+  /\ \A a \in 1..M : Below(a) = (a + 1)..(a + Cardinality(Below(a)))           \* a subtree is contiguous: descendants
+                                                                               \* before following nodes
+  /\ Cardinality({a \in 1..M : Par(a) = NoneD}) = 1                            \* one root
 =============================================================================
